@@ -20,4 +20,56 @@ CHECKS = {
     },
 }
 
+CHECKS.update({
+    "C09": {
+        "level_text": "Every write operation on the shared maps is enumerated from MIR and must have the shape that makes "
+                      "per-key atomicity hold: in-place mutation under one entry()/get_mut() guard, remove_if(is_empty), "
+                      "retain predicates keeping exactly the other files' elements, per-file maps keyed only by the analysed "
+                      "file's canonical path (interprocedural origin tracing). These are necessary conditions of isolation; "
+                      "sequential equivalence of whole analyses is not decided.",
+        "design_ref": "DESIGN.md section 4 R2, section 5 C09",
+        "level_note": "Trusted: DashMap per-key atomicity of entry/get_mut/remove_if; MIR extraction; rule layer. Undecided: "
+                      "linearizability of complete analyses.",
+        "technique": "MIR call-site enumeration + closure predicate shape matching + interprocedural value-origin tracing",
+    },
+    "C06": {
+        "level_text": "In the CFG of the analysis entry (found by role) a clear of every appended map dominates every append-"
+                      "reaching call, all index writes are dominated by the Ok edge of the parse result, and the cleaning flag "
+                      "is false only on paths the document-synchronisation handlers cannot reach. Necessary conditions of "
+                      "history independence; equality with a fresh index for every history is not decided.",
+        "design_ref": "DESIGN.md section 4 R3a/R3b/R3e, section 5 C06",
+        "level_note": "Trusted: MIR dominators, call graph incl. closures, retain-by-file summaries. Undecided: value-level "
+                      "equality of indexes, stale positions while a document is unparsable.",
+        "technique": "dominance / must-pass-through analysis on MIR CFG + call-graph reachability",
+    },
+    "C10": {
+        "level_text": "Handlers reach the analysis entry only with cleaning enabled; tasks spawned from handlers must not run "
+                      "the non-cleaning analysis (may-happen-in-parallel by spawn edges). The second clause is violated by the "
+                      "pinned tree (recorded known finding, reproduced against the real library). Which content wins per "
+                      "timing is not decided.",
+        "design_ref": "DESIGN.md section 4 R3e, section 5 C10",
+        "level_note": "Trusted: call graph with spawn edges (tokio::spawn / spawn_blocking). Undecided: schedules.",
+        "technique": "call-graph reachability with spawn-edge (may-happen-in-parallel) classification; constant-argument check of the cleaning flag",
+    },
+    "C04": {
+        "level_text": "The per-file usage map and its per-name reverse index are written in step (paired appends fed by one "
+                      "FixtureUsage, removals dominated by a by-file clear of the reverse index, no other writer kinds). "
+                      "Necessary for references being the inverse of resolution; the equivalence itself is not decided.",
+        "design_ref": "DESIGN.md section 4 R3c, section 5 C04",
+        "level_note": "Trusted: MIR dominators/post-dominators. Undecided: pairwise inverse relation, count equality across consumers.",
+        "technique": "paired-effect (dominance + post-dominance) analysis of map writers on MIR",
+    },
+    "C07": {
+        "level_text": "Every stamp stored in a cache entry is compared on the hit path; every mutation of the definition maps "
+                      "and of every map read behind a version-stamped cache is followed by a version increment; no memoised "
+                      "result depends on a &mut context parameter outside the key; no query is gated solely by membership in "
+                      "an evictable cache. Two genuine defects found by these rules were repaired (fix: commits), one is a "
+                      "recorded known finding. Warm/cold equality for every interleaving is not decided.",
+        "design_ref": "DESIGN.md section 4 R3d, section 5 C07",
+        "level_note": "Trusted: MIR, transitive read/write sets over the call graph, post-dominance of version increments, "
+                      "reviewed transparent cache (canonical_path_cache). Undecided: value equality, eviction of open documents' text.",
+        "technique": "effect (read/write-set) analysis + post-dominance of invalidation + stamp-comparison dominance on MIR",
+    },
+})
+
 NOT_APPLICABLE = {p: _UNDER_CONSTRUCTION for p in ["C%02d" % i for i in range(1, 21)]}
